@@ -185,7 +185,7 @@ func (c *checkCtx) tlc(module, cfg string, o tlcOpts) *tlcResult {
 		}
 	}
 	meta := filepath.Join(c.work, fmt.Sprintf("meta%d", seq))
-	args := []string{"-XX:+UseParallelGC", "-Xss512m"}
+	args := []string{"-XX:+UseParallelGC", "-Xss512m", "-Dfile.encoding=UTF-8", "-Dsun.jnu.encoding=UTF-8"}
 	if o.deque {
 		args = append(args, "-Dtlc2.tool.queue.IStateQueue=StateDeque")
 	}
